@@ -273,6 +273,13 @@ _FORMAT_ALL = _FormatAll()
 
 def run(spec, mode='sync', rec=None, chooser=None, keep_session=False, **core_kw):
     """Execute the session spec against a fresh simulator; returns RunResult."""
+    if spec.get('warn_error'):
+        # the application runs with warnings turned into errors (python -W error, pytest filterwarnings=error)
+        import warnings
+        with warnings.catch_warnings():
+            warnings.simplefilter('error', UserWarning)
+            warnings.simplefilter('error', RuntimeWarning)
+            return run({k: v for k, v in spec.items() if k != 'warn_error'}, mode, rec, chooser, keep_session, **core_kw)
     if spec.get('debug_log'):
         # the application has switched the library's loggers to DEBUG
         lg = logging.getLogger('adb_shell')
@@ -288,13 +295,14 @@ def run(spec, mode='sync', rec=None, chooser=None, keep_session=False, **core_kw
             lg.removeHandler(_FORMAT_ALL)
             lg.propagate = old_prop
     seed = spec.get('seed', 0)
-    if spec.get('ambient', True) and ('rtype' not in spec or 'debug_log' not in spec or 'boundary' not in spec or 'loop_per_call' not in spec):
+    if spec.get('ambient', True) and ('rtype' not in spec or 'debug_log' not in spec or 'boundary' not in spec or 'loop_per_call' not in spec or 'warn_error' not in spec):
         # ambient variation of the environment, derived from the seed unless the spec pins it: the container type bulk_read hands out
         # and whether the application runs the library's loggers at DEBUG.  Neither may change any observable result.
         h = (seed * 2654435761 + 97 * len(spec.get('ops', []))) & 0xFFFFFFFF
         amb = dict(spec, ambient=False)
         amb.setdefault('rtype', [None, 'bytearray', 'memoryview', 'array'][(h >> 5) % 4])
         amb.setdefault('debug_log', (h >> 9) % 3 == 0)
+        amb.setdefault('warn_error', (h >> 21) % 3 == 0)
         if not any(('hold' in op_) or ('take' in op_) or op_.get('api') == 'resume' for op_ in spec.get('ops', [])):
             amb.setdefault('loop_per_call', (h >> 17) % 3 == 0)      # async: one event loop per public call (asyncio.run() each time)
         if spec.get('frag', 'whole') == 'whole' and not spec.get('mangle'):
@@ -634,6 +642,10 @@ def run_op(s, op, a, tmp, i, rr):
             s.dev.budget = None
     if op.get('late'):
         s.dev.hold_next_open = True     # the device withholds everything of this stream until the next OPEN arrives
+    if op.get('positional') and api in ('shell', 'exec_out', 'streaming_shell') and 'take' not in op and 'hold' not in op:
+        # every argument by position, in the documented order: (command, transport_timeout_s, read_timeout_s[, timeout_s], decode)
+        pos = [a['cmd'], op.get('transport_timeout_s'), op.get('read_timeout_s', 10.0)] + ([op.get('timeout_s')] if api != 'streaming_shell' else []) + [op.get('decode', True)]
+        return s.call(api, *pos, _info=dict(i=i))
     if api in ('shell', 'exec_out'):
         return s.call(api, a['cmd'], decode=op.get('decode', True), _info=dict(i=i), **tkw)
     if api == 'streaming_shell' and ('take' in op or 'hold' in op):
@@ -685,6 +697,13 @@ def run_op(s, op, a, tmp, i, rr):
         else:
             p = os.path.join(tmp, 'dst%d.bin' % i)
             how = op.get('local_as', 'str')
+            if how == 'dollar':
+                p = os.path.join(tmp, 'R$HOME$USER~%d.bin' % i)                 # a file name that merely looks like shell syntax
+                how = 'str'
+            if how == 'tilde':
+                os.makedirs(os.path.join(tmp, '~'), exist_ok=True)
+                p = os.path.join('~', 'dst%d.bin' % i)                          # relative to the working directory: a directory literally named "~"
+                how = 'tilde_rel'
             if how == 'missing_dir':
                 p = os.path.join(tmp, 'no-such-dir', 'dst%d.bin' % i)          # cannot be opened for writing
                 how = 'str'
@@ -692,9 +711,16 @@ def run_op(s, op, a, tmp, i, rr):
                 target = os.open(p, os.O_WRONLY | os.O_CREAT | os.O_TRUNC, 0o600)      # open() accepts a file descriptor (and closes it)
             else:
                 target = _local(p, how)
+            cwd_ = os.getcwd()
+            if how == 'tilde_rel':
+                os.chdir(tmp)
+                target = p
             try:
                 o = s.call('pull', P(a['path']), target, progress_callback=cbf, _info=dict(i=i), **tkw)
             finally:
+                os.chdir(cwd_)
+                if how == 'tilde_rel':
+                    p = os.path.join(tmp, p)
                 if how == 'fd':
                     try:
                         os.close(target)
@@ -915,7 +941,7 @@ def gen_session(rng, idx, big=False, adversarial=False, ops_max=6, allow=('shell
             for c in range(k):
                 size = rng.choice([1, 2, 16, 100, 4095, 4096, rng.randint(1, 4096)] + ([rng.randint(4097, min(maxdata, 200000))] if big and maxdata > 4097 else []))
                 chunks.append((b'[%d.%d.%d]' % (idx, j, c) + fast_pattern(idx * 100 + j * 10 + c, size))[:max(size, 14)].hex())
-            ops.append(dict(api=api, decode=False, cmd=rng.choice(['x', 'ls -l /sdcard', 'echo €', 'q' * 300]), chunks=chunks))
+            ops.append(dict(api=api, decode=False, cmd=rng.choice(['x', 'ls -l /sdcard', 'echo €', 'q' * 300]), chunks=chunks, positional=rng.random() < 0.3))
         elif api in ('root', 'reboot'):
             ops.append(dict(api=api))
         elif api == 'stat':
@@ -930,7 +956,7 @@ def gen_session(rng, idx, big=False, adversarial=False, ops_max=6, allow=('shell
         elif api == 'pull':
             size = rng.choice([0, 1, 7, 8, 9, 4096, 65535, 65536, 65537, rng.randint(0, 200000)] + ([rng.randint(200000, 3000000)] if big else []))
             ops.append(dict(api='pull', path=rng.choice(['/p%d' % j, '/sdcard/é%da' % j, '/фото%d.jpg' % j]), path_bytes=rng.random() < 0.3, size=size, data_sizes=rng.choice([None, 'random']), cuts=rng.choice(['whole', 'random']) if size < 50000 else 'whole',
-                            dest=rng.choice(['bytesio', 'path']), cb=rng.choice([None, None, 'ok', 'raise']), local_as=rng.choice(['str', 'str', 'pathlib', 'bytes', 'fd']),
+                            dest=rng.choice(['bytesio', 'path']), cb=rng.choice([None, None, 'ok', 'raise']), local_as=rng.choice(['str', 'str', 'pathlib', 'bytes', 'fd', 'dollar', 'tilde']),
                             stat_size=rng.choice([None, None, None, 0, 1, size + 1])))
         elif api == 'push':
             chunk = min(65536, maxdata // 2)
